@@ -107,8 +107,8 @@ pub fn spec(prop: &str, tier: Tier) -> Option<PropSpec> {
             id: "C07",
             level: "exploration",
             batches: vec![
-                Batch { engine: "e3", profile: "debug", runs: e3::exhaustive_count(tier) + if q { 300_000 } else { 4_000_000 } },
-                Batch { engine: "e3", profile: "release", runs: e3::exhaustive_count(tier) + if q { 1_200_000 } else { 20_000_000 } },
+                Batch { engine: "e3", profile: "debug", runs: e3::exhaustive_count(tier) + e3::grid_count() + if q { 300_000 } else { 4_000_000 } },
+                Batch { engine: "e3", profile: "release", runs: e3::exhaustive_count(tier) + e3::grid_count() + if q { 1_200_000 } else { 20_000_000 } },
             ],
             exhaustive: false,
             rule: "one evaluation = one expression program (AST encoded by the harness's own encoder) decoded and evaluated by the real evaluator against the seeded World and compared with the reference model (Requires* sequence with every parameter, result pieces, value result, error kind); first block: every program of length <= 2 (quick) / 3 (thorough) over a 38-symbol alphabet after three boundary operands, each under every iteration limit 0..K+1; then seeded valid/random programs with loops, pieces, nested calls, typed values, wrong-typed answers, storage budgets; non-trivial = >=1 operation decoded AND (an injected fault fired OR the comparison ran to its end); distinct = distinct event-stream digests",
